@@ -1315,6 +1315,46 @@ impl Exec {
         self.handle_op_quiet(ev0, &others, "clone of a handle");
     }
 
+    pub fn handle_clone_from_step(&mut self, dst: u8, src: u8) {
+        if self.handles.is_empty() {
+            return;
+        }
+        let n = self.handles.len();
+        let (di, si) = (dst as usize % n, src as usize % n);
+        if di == si {
+            return;
+        }
+        let ok = matches!((&self.handles[di], &self.handles[si]), (Some(a), Some(b)) if a.same_variant(b));
+        if !ok {
+            return;
+        }
+        let ev0 = obs::events_len();
+        let others = self.snapshot_others(usize::MAX);
+        let mut d = self.handles[di].take().unwrap();
+        let r = {
+            let s = self.handles[si].as_ref().unwrap();
+            obs::set_quiet_panics(true);
+            let r = catch_unwind(AssertUnwindSafe(|| d.clone_from_handle(s)));
+            obs::set_quiet_panics(false);
+            r
+        };
+        self.handles[di] = Some(d);
+        match r {
+            Ok(_) => {
+                // dst gave up its own registration and is now one more handle of src's slot
+                let old_arena = self.model.handles[di].arena as usize;
+                let mh = self.model.handles[si].clone();
+                obs::untracked(|| self.model.handles[di] = mh);
+                if old_arena < self.bk.len() {
+                    self.bk[old_arena].mutated_since_wake = true;
+                }
+                self.cov.handle_clone_froms += 1;
+            }
+            Err(p) => self.violate("C14", "handle-clone-panicked", format!("clone_from of handle {si} into handle {di}: {}", obs::panic_message(&*p))),
+        }
+        self.handle_op_quiet(ev0, &others, "clone_from of a handle");
+    }
+
     pub fn handle_drop_step(&mut self, h: u8) {
         if self.handles.is_empty() {
             return;
@@ -1403,6 +1443,7 @@ impl Exec {
                 }
             }
             Step::CloneHandle { h } => self.handle_clone_step(*h),
+            Step::CloneFromHandle { dst, src } => self.handle_clone_from_step(*dst, *src),
             Step::DropHandle { h } => self.handle_drop_step(*h),
             Step::ArmTracePanic { k } => {
                 if !self.opts.c09 {
